@@ -11,7 +11,8 @@ CHECKS = {
             "against a backtracking-regex definition of the '...' wildcard",
             "Every pair over {a,b,space,newline,'.'} up to the length bound (quick: 3 906 gots x 478 wants; thorough: "
             "19 531 x ~21 000) is compared with an independent definition, then Hypothesis pairs up to 60+ characters "
-            "over a wider alphabet. Exhaustive below the bound, sampled above it: a bounded-exhaustive exploration, "
+            "over a wider alphabet, and end-to-end doctest runs in which the statement prints, echoes a value or both with "
+            "+/-ELLIPSIS given as a directive (also on states whose flag was set by item assignment). Exhaustive below the bound, sampled above it: a bounded-exhaustive exploration, "
             "the right level for a pure string function with an exact reference.",
             "Trusted: CPython re (fullmatch/DOTALL) as the definition's executor; the reading of runs of >= 4 dots is "
             "left open (any reading accepted). Absence beyond the bound is not established."),
@@ -21,7 +22,7 @@ CHECKS = {
             "Hypothesis token sequences beyond the bound; end-to-end doctest runs",
             "All pairs over two 7-letter alphabets up to length 3 (quick) / 4 (thorough) under all 32 settings of the five "
             "flags, compared with a reference and with three laws that involve no model; Hypothesis token sequences "
-            "(ANSI codes, <BLANKLINE>, prefixed literals) beyond the bound; sampled end-to-end doctests. Bounded-exhaustive "
+            "(ANSI codes, <BLANKLINE>, prefixed literals, two- and three-wildcard wants over a small word alphabet) beyond the bound; sampled end-to-end doctests. Bounded-exhaustive "
             "exploration of a pure function.",
             "Trusted: the reference normaliser (vp/ref/normaliser.py, self-tested) and CPython re/str. Cases where the "
             "statement admits several readings (classes a-e) are counted and not asserted; carriage returns are outside "
@@ -29,9 +30,10 @@ CHECKS = {
     'C01': ('6.1',
             "Hypothesis-generated programs (statement grammar x docstring layouts); differential against reference "
             "execution of the de-prompted program by CPython: trace of executed statements, stdout, bindings, attribution",
-            "Tens of thousands of generated programs (about 55 statement kinds: compound, decorated, multi-line, async, "
-            "comments, unprefixed string lines) in random prompt styles, indentations (incl. tabs), want placements and "
-            "separators are run by xdoctest and by CPython; every statement must run exactly once, in order, with the "
+            "Tens of thousands of generated programs (about 60 statement kinds: compound, decorated, multi-line, async, "
+            "comments, unprefixed string lines, stale sys.stdout references, harmless inline directives) in random prompt styles, indentations (incl. tabs), want placements and "
+            "separators are run by xdoctest and by CPython - a quarter of them as the docstring of a function in a module file whose "
+            "globals carry the names the doctest binds; every statement must run exactly once, in order, with the "
             "same stdout and final bindings. Randomised exploration with shrinking; unbounded input space, so sampled.",
             "Trusted: CPython compile/exec as ground truth, the generator's bookkeeping (self-tested per statement kind). "
             "The REPL echo of a value-bearing expression followed by a want is accepted either way. Inline directives "
